@@ -2,9 +2,13 @@
 //!
 //! One input line = `fd0;prog|prog|...;sched`
 //!   prog  = comma separated operations `T<h>` take_raw_fd, `G<h>` get_raw_fd, `D<h>` dup,
-//!           `C<h>` clone, `X<h>` drop, on thread-local handle numbers (every thread starts with
-//!           handle 0 = a clone of the one `UnixFd::new(fd0)`; `C` creates the next number);
-//!           `-` = empty program
+//!           `E<h>` / `N<h>` dup whose dup(2) call fails with EMFILE / ENFILE, `C<h>` clone,
+//!           `X<h>` drop, on thread-local handle numbers: every thread starts with handle 0 = a
+//!           clone of the one `UnixFd::new(fd0)`; every `C` and every `D` in the program is given
+//!           the next number for the handle it creates (`D`: the UnixFd returned by dup, "just
+//!           another UnixFd"); if it creates none at run time (dup reported the descriptor as
+//!           gone, or the operation was itself skipped) operations on that number are skipped
+//!           (`if let Ok(d) = h.dup() { .. }`), which takes one scheduling step; `-` = empty program
 //!   sched = comma separated thread ids, `-` = empty
 //!
 //! Real OS threads execute the real `UnixFd` methods. Every atomic action of unixfd.rs is preceded
@@ -16,11 +20,13 @@
 //! `dup`/`close` go to a simulated descriptor table through `verif_hooks::nix_shim`, so nothing
 //! real is closed and every call is logged in global order.
 //!
-//! Output line = `r|r|...;syscalls;open;points` with r = per-thread results (`T=100`, `T=none`, `G=100`,
-//! `G=none`, `D=101`, `D=gone`, `C`, `X`), syscalls = `dup(100)=101@2,close(100)@1` (`@thread`),
-//! open = the descriptors open in the simulated table at the end (before the handles returned by
-//! dup are released), points = `t.i:name` for every granted step in order (thread, operation
-//! index, name of the point the thread was released from). `HANG ...` if a step does not complete within the watchdog time,
+//! Output line = `r|r|...;syscalls;open;steps` with r = per-thread results (`T=100`, `T=none`, `G=100`,
+//! `G=none`, `D=101`, `D=gone`, `D=err`, `C`, `X`, `S` skipped), syscalls =
+//! `dup(100)=101@2,dup(100)=ERR@0,close(100)@1` (`@thread`), open = the descriptors open in the
+//! simulated table at the end (before the handles the programs did not drop are released), steps =
+//! for every granted step in order `t.i:name` (thread, operation index, name of the point the
+//! thread was released from) followed by `t:dup(..)=..` / `t:close(..)` if the step made that
+//! system call. `HANG ...` if a step does not complete within the watchdog time,
 //! `BADLINE ...` for unparsable input or a program that uses a handle it does not own.
 
 use rustbus::verif_hooks;
@@ -30,7 +36,11 @@ use std::collections::BTreeSet;
 use std::sync::{Arc, Condvar, Mutex};
 use std::time::{Duration, Instant};
 
-const WATCHDOG: Duration = Duration::from_secs(20);
+fn watchdog() -> Duration {
+    // generous hang detector only; the check re-runs a HANG line alone with a longer deadline
+    let s = std::env::var("C12_WATCHDOG_S").ok().and_then(|v| v.parse::<u64>().ok()).unwrap_or(30);
+    Duration::from_secs(s)
+}
 const UNCONTROLLED: usize = usize::MAX;
 
 #[derive(Clone, Copy, Debug)]
@@ -38,6 +48,7 @@ enum Op {
     Take(usize),
     Get(usize),
     Dup(usize),
+    DupFail(usize, nix::errno::Errno),
     Clone(usize),
     Drop(usize),
 }
@@ -66,6 +77,8 @@ thread_local! {
     static CTX: RefCell<Option<(usize, Arc<Case>)>> = RefCell::new(None);
     // index of the operation this (worker) thread is executing
     static OPIDX: std::cell::Cell<usize> = std::cell::Cell::new(0);
+    // the next dup(2) of this thread fails with this errno (operations E / N)
+    static FAIL_DUP: std::cell::Cell<Option<nix::errno::Errno>> = std::cell::Cell::new(None);
 }
 
 fn ctx() -> Option<(usize, Arc<Case>)> {
@@ -108,14 +121,21 @@ fn sim_dup(fd: i32) -> Result<i32, nix::errno::Errno> {
     let Some((tid, case)) = ctx() else { return Err(nix::errno::Errno::ENOSYS) };
     let mut t = case.table.lock().unwrap();
     let who = if tid == UNCONTROLLED { "main".to_string() } else { tid.to_string() };
+    if let Some(e) = FAIL_DUP.with(|c| c.get()) {
+        t.log.push(format!("dup({})=ERR@{}", fd, who));
+        t.points.push(format!("{}:dup({})=ERR", who, fd));
+        return Err(e);
+    }
     if !t.open.contains(&fd) {
         t.log.push(format!("dup({})=EBADF@{}", fd, who));
+        t.points.push(format!("{}:dup({})=EBADF", who, fd));
         return Err(nix::errno::Errno::EBADF);
     }
     let n = t.next;
     t.next += 1;
     t.open.insert(n);
     t.log.push(format!("dup({})={}@{}", fd, n, who));
+    t.points.push(format!("{}:dup({})={}", who, fd, n));
     Ok(n)
 }
 
@@ -125,9 +145,11 @@ fn sim_close(fd: i32) -> Result<(), nix::errno::Errno> {
     let who = if tid == UNCONTROLLED { "main".to_string() } else { tid.to_string() };
     if !t.open.remove(&fd) {
         t.log.push(format!("close({})=EBADF@{}", fd, who));
+        t.points.push(format!("{}:close({})=EBADF", who, fd));
         return Err(nix::errno::Errno::EBADF);
     }
     t.log.push(format!("close({})@{}", fd, who));
+    t.points.push(format!("{}:close({})", who, fd));
     Ok(())
 }
 
@@ -147,6 +169,8 @@ fn parse_prog(s: &str) -> Result<Vec<Op>, String> {
             "T" => Op::Take(h),
             "G" => Op::Get(h),
             "D" => Op::Dup(h),
+            "E" => Op::DupFail(h, nix::errno::Errno::EMFILE),
+            "N" => Op::DupFail(h, nix::errno::Errno::ENFILE),
             "C" => Op::Clone(h),
             "X" => Op::Drop(h),
             _ => return Err(format!("bad op '{}'", item)),
@@ -155,7 +179,8 @@ fn parse_prog(s: &str) -> Result<Vec<Op>, String> {
     Ok(v)
 }
 
-/// ownership: every operation names a handle the thread owns at that time
+/// ownership: every operation names a handle the thread owns at that time, counting on every
+/// clone and dup to create the handle it is given a number for (`own_ok` in the model)
 fn owns_ok(p: &[Op]) -> bool {
     let mut live: BTreeSet<usize> = BTreeSet::new();
     live.insert(0);
@@ -167,12 +192,12 @@ fn owns_ok(p: &[Op]) -> bool {
                     return false;
                 }
             }
-            Op::Get(h) | Op::Dup(h) => {
+            Op::Get(h) | Op::DupFail(h, _) => {
                 if !live.contains(&h) {
                     return false;
                 }
             }
-            Op::Clone(h) => {
+            Op::Clone(h) | Op::Dup(h) => {
                 if !live.contains(&h) {
                     return false;
                 }
@@ -186,18 +211,29 @@ fn owns_ok(p: &[Op]) -> bool {
 
 struct ThreadOut {
     results: Vec<String>,
-    dups: Vec<UnixFd>,      // handles returned by dup: kept alive until the output is written
-    leftover: Vec<UnixFd>,  // handles the program never dropped
+    leftover: Vec<UnixFd>, // handles the program never dropped: kept alive until the output is written
 }
 
 fn worker(tid: usize, case: Arc<Case>, first: UnixFd, prog: Vec<Op>, out: Arc<Mutex<Option<ThreadOut>>>) {
     CTX.with(|c| *c.borrow_mut() = Some((tid, case.clone())));
     let mut results = Vec::new();
-    let mut dups = Vec::new();
+    // handle number -> the UnixFd, None = consumed (take/drop) or never created (dead)
     let mut live: Vec<Option<UnixFd>> = vec![Some(first)];
     let r = std::panic::catch_unwind(std::panic::AssertUnwindSafe(|| {
         for (i, op) in prog.into_iter().enumerate() {
             OPIDX.with(|c| c.set(i));
+            let h = match op {
+                Op::Take(h) | Op::Get(h) | Op::Dup(h) | Op::DupFail(h, _) | Op::Clone(h) | Op::Drop(h) => h,
+            };
+            if live.get(h).map(|x| x.is_none()).unwrap_or(true) {
+                // the handle was never created (owns_ok excludes consumed ones): skip, one step
+                verif_hooks::point("skip");
+                if matches!(op, Op::Clone(_) | Op::Dup(_)) {
+                    live.push(None);
+                }
+                results.push("S".to_string());
+                continue;
+            }
             match op {
                 Op::Get(h) => {
                     let r = live[h].as_ref().unwrap().get_raw_fd();
@@ -214,8 +250,13 @@ fn worker(tid: usize, case: Arc<Case>, first: UnixFd, prog: Vec<Op>, out: Arc<Mu
                         None => "T=none".to_string(),
                     });
                 }
-                Op::Dup(h) => {
+                Op::Dup(h) | Op::DupFail(h, _) => {
+                    if let Op::DupFail(_, e) = op {
+                        FAIL_DUP.with(|c| c.set(Some(e)));
+                    }
                     let r = live[h].as_ref().unwrap().dup();
+                    FAIL_DUP.with(|c| c.set(None));
+                    let creates = matches!(op, Op::Dup(_));
                     match r {
                         Ok(newfd) => {
                             let n = uncontrolled(|| newfd.get_raw_fd());
@@ -223,12 +264,22 @@ fn worker(tid: usize, case: Arc<Case>, first: UnixFd, prog: Vec<Op>, out: Arc<Mu
                                 Some(v) => format!("D={}", v),
                                 None => "D=?".to_string(),
                             });
-                            dups.push(newfd);
+                            // the returned UnixFd is the thread's next handle
+                            live.push(Some(newfd));
                         }
                         // DupError lives in a private module: tell the variants apart by Debug
                         Err(e) => {
                             let d = format!("{:?}", e);
-                            results.push(if d == "AlreadyTaken" { "D=gone".to_string() } else { format!("D=err:{}", d) })
+                            results.push(if d == "AlreadyTaken" {
+                                "D=gone".to_string()
+                            } else if d.starts_with("Io(") {
+                                "D=err".to_string()
+                            } else {
+                                format!("D=?{}", d)
+                            });
+                            if creates {
+                                live.push(None);
+                            }
                         }
                     }
                 }
@@ -258,7 +309,7 @@ fn worker(tid: usize, case: Arc<Case>, first: UnixFd, prog: Vec<Op>, out: Arc<Mu
         }
     });
     let leftover: Vec<UnixFd> = live.into_iter().flatten().collect();
-    *out.lock().unwrap() = Some(ThreadOut { results, dups, leftover });
+    *out.lock().unwrap() = Some(ThreadOut { results, leftover });
     let mut s = case.sched.lock().unwrap();
     s.finished[tid] = true;
     s.arrivals[tid] += 1;
@@ -267,7 +318,7 @@ fn worker(tid: usize, case: Arc<Case>, first: UnixFd, prog: Vec<Op>, out: Arc<Mu
 
 /// wait until thread t has arrived (at a point or at its end) more than `before` times
 fn wait_arrival(case: &Case, t: usize, before: u64) -> bool {
-    let deadline = Instant::now() + WATCHDOG;
+    let deadline = Instant::now() + watchdog();
     let mut s = case.sched.lock().unwrap();
     while s.arrivals[t] <= before {
         let now = Instant::now();
